@@ -25,8 +25,9 @@ def reset():
 
 
 class FakeLock:
-    """threading.Lock for stepped thread bodies: acquire on a held lock leaves the step (Yield) after putting back
-    what the step dequeued (the real thread would keep the item in a local while blocked)."""
+    """threading.Lock for stepped thread bodies: acquire on a held lock leaves the step (Yield) after parking what the
+    step dequeued: the real thread keeps the item in a local while blocked, so it is handed to that consumer again when its
+    body is re-entered, but it is no longer IN the queue (a non-blocking drain by another thread does not see it)."""
     def __init__(self):
         self.held = False
 
@@ -36,7 +37,7 @@ class FakeLock:
                 return False
             while _TXN:
                 q, item = _TXN.pop()
-                q.items.insert(0, item)
+                q.parked.insert(0, item)
             raise Yield()
         self.held = True
         del _TXN[:]
@@ -61,11 +62,19 @@ class FakeQueue:
     """queue.Queue for stepped thread bodies: a blocking get on an empty queue leaves the step (Yield)."""
     def __init__(self, maxsize=0):
         self.items = []
+        self.parked = []       # dequeued by the (single) blocking consumer, which then blocked on a lock before using it
 
     def put(self, item, block=True, timeout=None):
         self.items.append(item)
 
+    def pending(self):
+        return bool(self.items or self.parked)
+
     def get(self, block=True, timeout=None):
+        if block and self.parked:
+            item = self.parked.pop(0)
+            _TXN.append((self, item))
+            return item
         if not self.items:
             if block and timeout is None:
                 raise Yield()
